@@ -471,6 +471,16 @@ func (r *Run) step() *Violation {
 	case opSnapCombo:
 		return r.doSnapCombo(t.Intn(r.nSubs))
 	case opFault:
+		if r.Variant == "ack" && t.Bool(50) {
+			// a storage fault placed inside an acknowledgement (early driver events, so that
+			// it fires), the most interesting place for "acknowledged means acknowledged"
+			kind := []FaultKind{FaultCommitErr, FaultCommitErr, FaultStmtErr, FaultConnLoss, FaultCancel}[t.Intn(5)]
+			r.pendingFault = fmt.Sprintf("sql:%d:%d", kind, 1+t.Intn(4))
+			r.ev("arm fault %s for the acknowledgement that follows", r.pendingFault)
+			r.stat("armed_" + kind.String())
+			r.stat("fault_aimed_at_ack")
+			return r.doAck()
+		}
 		r.doArmFault()
 		return nil
 	case opRestart:
